@@ -376,12 +376,13 @@ xds_decoder(vbi_decoder *vbi, int _class, int type,
 		case 7:		/* program caption services */
 		{
 			int services = 0;
+			unsigned char *lang[8];
 
 			if (length > 8)
 				return;
 
 			for (i = 0; i < 8; i++)
-				pi->caption_language[i] = NULL;
+				lang[i] = NULL;
 
 			for (i = 0; i < length; i++) {
 				int ch = buffer[i] & 7;
@@ -397,13 +398,18 @@ xds_decoder(vbi_decoder *vbi, int _class, int type,
 				s = ((1 << l) & 0xC1) ? NULL :
 					(unsigned char *) language[l];
 
-				if (pi->caption_language[ch] != (unsigned char *) s) {
-					neq = 1; pi->caption_language[ch] = (unsigned char *) s;
-				}
+				lang[ch] = s;
 
 				if (_class == XDS_CURRENT)
-					vbi->cc.channel[ch].language =
-						pi->caption_language[ch];
+					vbi->cc.channel[ch].language = s;
+			}
+
+			/* Compare with the stored languages before replacing
+			   them, or the packet never counts as a repeat. */
+			for (i = 0; i < 8; i++) {
+				if (pi->caption_language[i] != lang[i]) {
+					neq = 1; pi->caption_language[i] = lang[i];
+				}
 			}
 
 			xds_intfu(pi->caption_services, services);
